@@ -5,6 +5,9 @@ CONSTANTS Freqs = {7, 14, 21}
  MaxLen = 7
  ZintSurvives = FALSE
  AllowRaw = FALSE
+ Volts = {1, 2}
+ MaxLoads = 1
+ ZKept = FALSE
 INIT Init
 NEXT Next
 INVARIANT NoStaleUse
